@@ -658,6 +658,21 @@ func checkActiveHosts(p *an.Prog, r *an.Run, d *types.Named, m *ssa.Function, ex
 	}
 	app := appends[0]
 	isApp := func(in ssa.Instruction) bool { return in == ssa.Instruction(app) }
+	// the records examined are the node records themselves: the query iterates the node space, not a second index
+	// or cache of it (a copy that is maintained on some transitions only keeps stale hosts eligible)
+	nIter := 0
+	for _, o := range driverOps(p, d, m) {
+		if o.Kind != opIter {
+			continue
+		}
+		nIter++
+		if !o.inSpace("node") || len(o.Spaces) != 1 {
+			bad = append(bad, "ActiveHosts iterates over "+strings.Join(o.Spaces, ",")+" ("+p.Pos(o.In.Pos())+"), not over the node records themselves")
+		}
+	}
+	if nIter == 0 {
+		bad = append(bad, "ActiveHosts does not iterate over the node space")
+	}
 	// "next iteration" markers: map range Next, or the iterator's Next/ValidForPrefix call
 	isNext := func(in ssa.Instruction) bool {
 		if _, ok := in.(*ssa.Next); ok {
@@ -991,6 +1006,17 @@ func checkErrorReplies(p *an.Prog, r *an.Run) {
 			check = func(v ssa.Value, depth int) bool {
 				if isUR(v) || definitelyNonNilError(v) || returnOnFailEdge(ret, v) {
 					return true
+				}
+				// "if err := resp.UnmarshalResult(r); err != nil { return err }; return nil"
+				if cst, ok := v.(*ssa.Const); ok && cst.IsNil() {
+					for _, uc := range an.Calls(m, false) {
+						if uc.Common().StaticCallee() != ur {
+							continue
+						}
+						if u := an.ErrEdges(uc); len(u.Succ) > 0 && !an.ReachAvoiding(m, an.EdgeSet(u.Succ))[ret.Block()] {
+							return true
+						}
+					}
 				}
 				if ph, ok := v.(*ssa.Phi); ok && depth < 4 {
 					for _, e := range ph.Edges {
